@@ -55,17 +55,30 @@ func r10_1a(c *RC) {
 		c.Anchor("pkg/stderror error type constants")
 		return
 	}
+	// helpers of the read path (functions of this package whose error these
+	// functions forward) are held to the same rule: the set grows as they are
+	// discovered
+	work := []*ssa.Function{}
 	for fn := range set {
+		work = append(work, fn)
+	}
+	sort.Slice(work, func(i, j int) bool { return fnName(work[i]) < fnName(work[j]) })
+	for len(work) > 0 {
+		fn := work[0]
+		work = work[1:]
 		instrs(fn, func(b *ssa.BasicBlock, _ int, in ssa.Instruction) {
 			r, ok := in.(*ssa.Return)
-			if !ok || len(r.Results) != 2 {
+			if !ok || len(r.Results) < 1 {
+				return
+			}
+			if !types.Identical(fn.Signature.Results().At(len(r.Results)-1).Type(), types.Universe.Lookup("error").Type()) {
 				return
 			}
 			if b.Comment == "recover" {
 				return
 			}
 			key := "error-return@" + fnName(fn)
-			v := retVal(r, 1)
+			v := retVal(r, len(r.Results)-1)
 			if isNilConst(v) {
 				c.OK(key, r.Pos(), "nil error")
 				return
@@ -83,8 +96,16 @@ func r10_1a(c *RC) {
 					}
 					bad = "result of " + strings.ReplaceAll(calleeID(x), modPath+"/", "")
 				case *ssa.Extract:
-					if call, ok := x.Tuple.(*ssa.Call); ok && set[call.Common().StaticCallee()] {
-						continue
+					if call, ok := x.Tuple.(*ssa.Call); ok {
+						sc := call.Common().StaticCallee()
+						if set[sc] {
+							continue
+						}
+						if sc != nil && sc.Blocks != nil && relPkg(sc) == protoPkg && !strings.HasSuffix(p.Pos(sc.Pos()), "_test.go") {
+							set[sc] = true
+							work = append(work, sc)
+							continue
+						}
 					}
 					bad = "result of " + describe(x)
 				case *ssa.Const:
